@@ -245,6 +245,13 @@ def run(ctx):
     r5_block_contiguity(ctx)
     from . import C06
     C06.r3_notify(ctx, 'C01.R6')  # a delivered event (incl. interim 1xx heads) wakes the task waiting for it
+    from . import C20
+    C20.r3_flush_handover(ctx, 'C01.R7')  # clearing one stream's queue never discards another stream's in-flight DATA tail
+    from . import C12
+    C12.r7_payload_range(ctx, 'C01.R9')  # HEADERS / CONTINUATION / DATA payloads are cut at the right offset on every path
+    from .. import tstate
+    r8 = ctx.rule('C01.R8', 'TSTATE', 'end-of-stream is reported only when END_STREAM was received: RST_STREAM yields ErrorAfterEndStream iff END_STREAM had been seen, whatever its code (30 rows)')
+    tstate.recv_reset_rows(r8, ctx.facts)
     r1_end_stream_handover(ctx)
     r2_fifo(ctx)
     r3_popped_delivered(ctx)
